@@ -41,6 +41,7 @@ def _impl(tier, seed, search):
         if i % 8 == 3: a = ahat * (1 + float(g.choice([-1, 1])) * 10.0 ** g.uniform(-9, -5.1))     # direction that is unit only to 5..9 digits
         q = g.normal(size=3) * 10.0 ** g.uniform(-3, 3); q = np.clip(q, -1e3, 1e3)
         th = theta(g); qs = max(1.0, float(np.max(np.abs(q))))
+        if i % 6 == 1: th = float(g.choice([1, -1, 3])) * math.pi + float(g.choice([-1, 1])) * 10.0 ** g.uniform(-8, -4)      # next to a half turn (not on it)
         inp = dict(a=a, q=q, theta=th)
         ok, S = L.noraise('Revolute', lambda: Twist3.Revolute(a, q), inp, 'Twist3.Revolute(a, q)')
         if ok:
